@@ -113,8 +113,10 @@ def listing(d: str) -> Dict[str, bytes]:
     return out
 
 
-def run_cli(args: List[str], cwd: str, timeout=120):
-    env = dict(os.environ, PYTHONPATH=REPO_SRC, PYTHONDONTWRITEBYTECODE="1")
+def run_cli(args: List[str], cwd: str, timeout=120, hashseed: str = "1"):
+    # every invocation is its own process; generation, --check and regeneration get DIFFERENT hash seeds, so that
+    # output depending on set / dict-of-set iteration order shows up as drift
+    env = dict(os.environ, PYTHONPATH=REPO_SRC, PYTHONDONTWRITEBYTECODE="1", PYTHONHASHSEED=hashseed)
     p = subprocess.run([sys.executable, "-W", "ignore", "-m", "xstate_statemachine.cli", "generate-template"] + args, cwd=cwd,
                        capture_output=True, text=True, timeout=timeout, env=env)
     return p.returncode, (p.stdout + p.stderr)[-400:]
@@ -258,11 +260,11 @@ def one_job(job: dict, wd: str, want_nf) -> dict:
     if os.path.exists(sentinel):
         obs["payloadRan"] = True
     if rc == 0 and pys:
-        crc, ctail = run_cli([jpath, "-o", out1, "--check"] + base, jd)
+        crc, ctail = run_cli([jpath, "-o", out1, "--check"] + base, jd, hashseed="20260923")
         obs["checkRc"] = crc
         if crc != 0:
             info["check"] = ctail
-        rc2, _ = run_cli([jpath, "-o", out2, "-f"] + base, jd)
+        rc2, _ = run_cli([jpath, "-o", out2, "-f"] + base, jd, hashseed="777")
         again = listing(out2)
         obs["regenSame"] = rc2 == 0 and again == after
         if obs["valid"]:
